@@ -16,7 +16,7 @@ add("C01", "runtime differential monitor: rjson.Valid observed beside a referenc
     TB, "§5 C01")
 add("C02", "runtime differential monitor: rjson.SkipValue (success, offset) observed beside the reference model / json.Decoder on the byte sweep plus every token followed by every byte value and the structured product families, four buffer states, concurrent callers compared with the same call alone",
     "Exploration over the C01 sweep plus the follower family (59 tokens x 256 following bytes x 5 contexts x 2); offsets compared exactly on success.", TB, "§5 C02")
-add("C03", "runtime differential monitor: ReadValue/ReadObject/ReadArray (package level, fresh and long-lived ValueReader) observed beside the model tree and encoding/json's tree; callers modify results and fill the spare capacity of returned slices in between",
+add("C03", "runtime differential monitor: ReadValue/ReadObject/ReadArray (package level, fresh and long-lived ValueReader) observed beside the model tree and encoding/json's tree; callers modify results and fill the spare capacity of returned slices in between; record documents (W11)",
     "Exploration over generated documents (duplicate/escaped keys, invalid UTF-8, empty containers, overflow numbers), the byte sweep, depth boundary and splices; trees compared bit-exactly.", TB, "§5 C03")
 add("C04", "runtime differential monitor: ReadFloat64/DecodeFloat64/ReadValue observed beside strconv.ParseFloat and exact big.Rat rounding on decimals constructed next to float midpoints through every Eisel-Lemire table row",
     "Exploration aimed at rounding boundaries: per table row decimals within ~1e-19 of a midpoint, exact midpoint expansions truncated at 15..770 digits +-1ulp, >800-digit sticky tails, overflow/underflow thresholds at every length. Right level: errors of a float parser live on measure-zero sets that only constructed inputs reach.",
@@ -25,33 +25,33 @@ add("C05", "runtime differential monitor: six Read* and six Decode* integer func
     "Exploration: every value within +-300 (quick) / +-5,000 (thorough) of 26 boundary centres x 3 prefixes x 21 followers, hand shapes, random digit strings, byte sweep of top-level tokens.", TB, "§5 C05")
 add("C06", "runtime differential monitor: ReadStringBytes/ReadString/DecodeString/UnescapeStringContent observed beside the model string scanner on all 65,536 \\u units, surrogate grids, per-byte template sweeps, position and adjacent-byte sweeps up to 8,192 bytes, destination-capacity boundaries, scratch shapes (nil, dirty, lazily grown, 128 KiB) and strings held across scratch reuse",
     "Exploration; all code units and every high/low surrogate enumerated, (high,low) grid sampled in quick and complete in thorough, destinations of capacity 0..need+4.", TB, "§5 C06")
-add("C07", "callback event log checked offline: a logging probe handler under every mask of 'return 0 / return exact end' answers; log (offset, aliasing, raw key) compared with the model's member list; handlers that find the end with SkipValue on the traversal's own Buffer and that propagate wrapped standard errors",
+add("C07", "callback event log checked offline: a logging probe handler under every mask of 'return 0 / return exact end' answers; log (offset, aliasing, raw key) compared with the model's member list; handlers that find the end with SkipValue on the traversal's own Buffer and that propagate wrapped standard errors; record documents (W11)",
     "Exploration over the byte sweep, generated documents and depth boundary (<= 10,000), all 2^m answer masks for m <= 8 callbacks.", TB, "§5 C07")
-add("C08", "runtime differential monitor: PRNG-chosen API-composition decoders (typed readers, Decode*, SkipValue, SkipValueFast, return 0, nested handlers) observed beside direct ReadValue, with a long-lived skip Buffer and field-name scratch kept across documents",
+add("C08", "runtime differential monitor: PRNG-chosen API-composition decoders (typed readers, Decode*, SkipValue, SkipValueFast, return 0, nested handlers) observed beside direct ReadValue, with a long-lived skip Buffer and field-name scratch kept across documents; direct decoding also through a long-lived ValueReader (three entry points, either order); record documents (W11)",
     "Exploration: 4 (quick) / 10 (thorough) composition programs per document over generated documents, the byte sweep and nestings <= 10,000.", TB + " Documents nested deeper than 10,000 are excluded (the handler traversal has no depth limit, direct decoding has).", "§5 C08")
-add("C09", "callback event log + error identity: a probe handler fails at call k with a unique sentinel error and a hostile accompanying offset; returned error (fresh sentinels, the library's own error values, a typed nil, standard-library and wrapped errors) compared by identity, calls counted; handlers that re-enter with the traversal's Buffer",
+add("C09", "callback event log + error identity: a probe handler fails at call k with a unique sentinel error and a hostile accompanying offset; returned error (fresh sentinels, the library's own error values, a typed nil, standard-library and wrapped errors) compared by identity, calls counted; handlers that re-enter with the traversal's Buffer; structured standard-library errors with their contents watched; another call on the same document and Buffer first",
     "Exploration: every failing position for <= 8 callbacks x 11 accompanying offsets incl. MaxInt/MinInt, both traversals, members of every kind.", TB, "§5 C09")
-add("C10", "crash/panic/hang monitor: every exported function and hostile handler programs run on hostile inputs held in PROT_READ guard pages, one worker process per shard with last-case attribution and a stall watchdog; returned offsets range-checked",
+add("C10", "crash/panic/hang monitor: every exported function and hostile handler programs run on hostile inputs held in PROT_READ guard pages, one worker process per shard with last-case attribution and a stall watchdog; returned offsets range-checked; hostile handlers that re-enter with the traversal's own Buffer",
     "Exploration: 45 call forms x raw bytes, byte sweep, generated/faulty documents, nestings to 1,048,576 levels, megabyte tokens; handler offsets negative/beyond end/near MaxInt/MinInt/off-by-one/mid-token.", TB + " Go's bounds/nil checks are the memory-safety sanitizer; the library imports neither unsafe nor cgo.", "§5 C10")
 add("C11", "runtime differential monitor: SkipValueFast observed beside SkipValue on every input where the real SkipValue succeeds (with any of four Buffer states; the long-lived Buffer is shared by both skippers); concurrent callers compared with the same call alone",
     "Exploration over the C02 inputs; precondition taken from the real SkipValue so the check is independent of C02's model.", TB, "§5 C11")
 add("C12", "runtime monitor of (offset, error, target before/after) for all nine Decode* functions with two sentinel targets, expected outcome derived from the corresponding Read* and a null-prefix test; targets correlated with the input, cap==len and baited copies, an aliasing history for DecodeString, a 128 KiB scratch; the same again on a GOARCH=386 build",
     "Exploration over literal corruptions (every byte, every position), the top-level byte sweep, integer/float literals and generated strings.", TB, "§5 C12")
-add("C13", "runtime monitor against an independently written token table, EXHAUSTIVE over whitespace prefixes x next byte; literal readers on every one-byte corruption; type exclusivity over sweeps and token soups, including the methods of one long-lived ValueReader; token functions also on cap==len and baited copies",
+add("C13", "runtime monitor against an independently written token table, EXHAUSTIVE over whitespace prefixes x next byte; literal readers on every one-byte corruption; type exclusivity over sweeps and token soups, including the methods of one long-lived ValueReader; token functions also on cap==len and baited copies; inputs held in read-only guard pages",
     "Exploration with an exhaustive finite part: all 85 whitespace prefixes (length <= 3) x all 256 bytes x 4 suffixes.", TB, "§5 C13")
-add("C14", "history monitor: every call of a 20-200 call history over one Buffer is shadowed by the same call with no buffer; complete transcripts (results, errors, callback logs, nested re-entrant calls sharing the enclosing call's Buffer) must be identical; every fifth history continues on one Buffer that lives as long as the worker",
+add("C14", "history monitor: every call of a 20-200 call history over one Buffer is shadowed by the same call with no buffer; complete transcripts (results, errors, callback logs, nested re-entrant calls sharing the enclosing call's Buffer) must be identical; every fifth history continues on one Buffer that lives as long as the worker; forced garbage collections between calls in some histories",
     "Exploration: 40,000 (quick) / 600,000 (thorough) histories mixing all five buffer-taking functions, error/depth-limit/handler-abort exits and re-entrant sharing to 4 levels.", TB, "§5 C14")
-add("C15", "history monitor: every call on one long-lived ValueReader is shadowed by a fresh reader; deep snapshots of earlier results re-verified after every later call and after the harness modifies later AND older results and fills the spare capacity of returned slices",
+add("C15", "history monitor: every call on one long-lived ValueReader is shadowed by a fresh reader; deep snapshots of earlier results re-verified after every later call and after the harness modifies later AND older results and fills the spare capacity of returned slices; forced garbage collections, record-themed histories and same-length sibling documents through a refilled input buffer",
     "Exploration: 9,000 (quick) / 120,000 (thorough) histories incl. error and depth-limit exits, limit-, size- and related-document-themed histories; results also compared with the model tree.", TB, "§5 C15")
-add("C16", "read-only guard pages (mprotect + SetPanicOnFault) under every API call; append-semantics oracle over 35 destination shapes; scratch-independence (also of the ValueReader's own scratch) and ownership re-reads after overwriting inputs and buffers",
+add("C16", "read-only guard pages (mprotect + SetPanicOnFault) under every API call; append-semantics oracle over 35 destination shapes; scratch-independence (also of the ValueReader's own scratch) and ownership re-reads after overwriting inputs and buffers; same-length sibling documents through a refilled input buffer",
     "Exploration over string tokens, documents and a sample of the byte sweep.", TB + " Write detection relies on the MMU.", "§5 C16")
-add("C17", "runtime differential monitor against an independent per-byte U+FFFD model, EXHAUSTIVE over all byte strings of length <= 2 and 3-byte strings with lead byte >= 0x80; trees with argument snapshots; position, window-straddle and incomplete-destination-tail families; decoded documents vs encoding/json; 16 concurrent callers compared with the model",
+add("C17", "runtime differential monitor against an independent per-byte U+FFFD model, EXHAUSTIVE over all byte strings of length <= 2 and 3-byte strings with lead byte >= 0x80; trees with argument snapshots; position, window-straddle and incomplete-destination-tail families; decoded documents vs encoding/json; 16 concurrent callers compared with the model; spare capacity of results overwritten; sequences of long strings around every power of two",
     "Exploration with an exhaustive finite part (8,454,401 strings).", TB, "§5 C17")
 add("C18", "Go race detector (-race build) over 32 goroutines x seeded whole-API scripts on shared read-only inputs at several GOMAXPROCS, plus sequential re-execution of the same scripts as result oracle; goroutine pairs share arenas of disjoint windows, decoded trees are shared read-only, callers modify what they were given",
     "Exploration: 3 (quick) / 10 (thorough) processes, 2 passes each; reports the distinct co-active function pairs observed.", TB + " The race detector sees only accesses that happen in the run.", "§5 C18")
 add("C19", "allocation monitor: runtime.MemStats.Mallocs around 20 calls, three times, GC off, GOMAXPROCS=1, for every listed function on successful inputs of every conversion path with constructed preconditions (exact destination capacities, in-place unescaping, inputs in the caller's stack frame, handlers sharing the traversal's Buffer); plus measured calls after disturbances of the warmed Buffer",
     "Exploration over ~40,000 (quick) inputs; violation iff every call allocates in all three runs.", TB, "§5 C19")
-add("C20", "allocation monitor: runtime.MemStats.TotalAlloc over scaling series (n, 2n, 4n) of ~70 adversarial document families x 9 entry points and over big-then-many-small call histories on reused readers/buffers",
+add("C20", "allocation monitor: runtime.MemStats.TotalAlloc over scaling series (n, 2n, 4n) of ~70 adversarial document families x 9 entry points and over big-then-many-small call histories on reused readers/buffers; content-flavoured families (invalid UTF-8 below deep nesting, slow-path numbers in bulk)",
     "Exploration with explicit thresholds for 'linear' recorded in the evidence.", TB + " Thresholds are judgement calls stated in DESIGN.md §5 C20.", "§5 C20")
 
 def main():
